@@ -80,6 +80,45 @@ def run(rep, tier, seed):
             fails = [] if o2 == ('OK', b2s(pkt)) else ['manager decompress for direction %s gives %s' % (DIRC[d], str(o2)[:100])]
             line = ' '.join(['S', 'cmdecompress', tb(s), DIRC[d]] + rules_tokens([nr]))
             b.add('manager-roundtrip-' + klass, line, o2, parse_model_bits, fails, dict(layer='schc', op='cmdecompress', schc=s, rules=[nr], direction=DIRC[d]), key=line)
+    # rule sets in which each rule has its own Up / Dw alternatives, under variable-length ids (some equal as integers: 1, 01, 001):
+    # each rule must be filtered with ITS OWN descriptors, in matching as in compression and decompression
+    for i in range(n // 4):
+        stack, pkt, st, pd = gen_parsed(rnd, STACKS[i % len(STACKS)])
+        d = rnd.choice([DI.UP, DI.DOWN])
+        pd.direction = d
+        k = rnd.randint(2, 4)
+        ids = rnd.choice([['1', '01', '001', '0001'], ['0', '10', '110', '1110'], ['00', '01', '1'], ['1', '01', '000', '0010']])[:k]
+        k = len(ids)
+        mine = rnd.randrange(k)
+        rs = []
+        for j in range(k):
+            if j == mine:
+                r_, _ = dir_rule(rnd, pd, d)
+            else:
+                _, _, _, pdo = gen_parsed(rnd, stack)
+                pdo.direction = d
+                r_, _ = dir_rule(rnd, pdo, rnd.choice([DI.UP, DI.DOWN]))
+            rs.append(RuleDescriptor(id=mk(ids[j], rnd.choice([L, R])), field_descriptors=r_.field_descriptors))
+        nrs = [n_rule(r) for r in rs]
+        from microschc.ruler.ruler import Ruler
+        ruler = Ruler(rs)
+        for dd in (d, DI.DOWN if d == DI.UP else DI.UP, d):
+            pd.direction = dd
+            case_match(b, pd, rs, klass='ruleset-own-descriptors:match', ruler=ruler)
+        pd.direction = d
+        cm = ContextManager(Context(id='c', description='', interface_id='i', parser_id=stack, ruleset=rs))
+        out = obs_bits(with_timeout(lambda: cm.compress(Buffer(pkt, len(pkt) * 8), direction=d)))
+        npd_d = dict(n_pdesc(pd), dir=DIRC[d])
+        first = [nr for nr in nrs if ref_rule_applies(npd_d, nr)]
+        want = ('OK', ref_compress(npd_d, first[0], DIRC[d])) if first else ('EXC', 'RuleDescriptorMatchError')
+        fails = [] if out == want else ['rule set with own alternatives per rule: compress gives %s, expected %s' % (str(out)[:100], str(want)[:100])]
+        line = ' '.join(['S', 'cmcompressp', stack, tb(b2s(pkt)), DIRC[d], 'F'] + rules_tokens(nrs))
+        b.add('ruleset-own-descriptors:compress', line, out, parse_model_bits, fails, dict(layer='schc', op='cmcompress', stack=stack, packet=pkt.hex(), rules=nrs, direction=DIRC[d]), key=line)
+        if out[0] == 'OK' and isinstance(out[1], str):
+            o2 = obs_bits(with_timeout(lambda: cm.decompress(mk(out[1], R), direction=d)))
+            fails = [] if o2 == ('OK', b2s(pkt)) else ['rule set with own alternatives per rule: round trip gives %s' % (str(o2)[:100],)]
+            line = ' '.join(['S', 'cmdecompress', tb(out[1]), DIRC[d]] + rules_tokens(nrs))
+            b.add('ruleset-own-descriptors:roundtrip', line, o2, parse_model_bits, fails, dict(layer='schc', op='cmdecompress', schc=out[1], rules=nrs, direction=DIRC[d]), key=line)
     # one long-lived ContextManager serving both directions in turn (what it did for Up must not leak into Dw)
     for i in range(n // 4):
         stack, pkt, st, pd = gen_parsed(rnd, STACKS[i % len(STACKS)])
